@@ -44,7 +44,11 @@ func main() {
 	if *funcs {
 		for _, fn := range p.OwnFuncs {
 			if fn.Synthetic == "" {
-				fmt.Println(FuncKey(fn) + "\t" + sigString(fn))
+				var names []string
+				for _, prm := range fn.Params {
+					names = append(names, prm.Name())
+				}
+				fmt.Println(FuncKey(fn) + "\t" + sigString(fn) + "\t" + strings.Join(names, ","))
 			}
 		}
 		return
